@@ -44,6 +44,7 @@ type Params struct {
 	Icpt       int
 	IcptPanic  int // >0: the consumer interceptor at this (1-based) position panics after counting itself
 	CloseAny   bool
+	BoFunc     bool // Consumer.Retry.BackoffFunc instead of Retry.Backoff
 	ESlow      bool // the application reads Errors() only after it has asked for shutdown (and then with a delay)
 	AsyncOnly  bool // closeany: consumer and client are closed right after AsyncClose of the partition consumers
 	Move       bool
@@ -68,7 +69,7 @@ func Parse(v url.Values) (*Params, error) {
 	p := &Params{N: atoi(v, "n", 3), Cuts: atoi(v, "cuts", 0), Codec: atoi(v, "codec", 1), Ctl: atoi(v, "ctl", 0) == 1,
 		Start: v.Get("start"), FetchSz: atoi(v, "fsz", 0), FetchMax: atoi(v, "fmax", 0), BPF: atoi(v, "bpf", 0), Buf: atoi(v, "buf", 0), NParts: atoi(v, "np", 1),
 		NBrokers: atoi(v, "nb", 1), Slow: atoi(v, "slow", 0) == 1, RC: v.Get("iso") == "rc", AbOrder: atoi(v, "abo", 0), Icpt: atoi(v, "icpt", 0), IcptPanic: atoi(v, "icptpanic", 0),
-		CloseAny: atoi(v, "closeany", 0) == 1, ESlow: atoi(v, "eslow", 0) == 1, AsyncOnly: atoi(v, "aclose", 0) == 1, Move: atoi(v, "move", 0) == 1, Append: atoi(v, "app", 0) >= 1, AppendPart: max(atoi(v, "app", 0)-1, 0) % 2, AppendMode: atoi(v, "app", 0), Base: int64(atoi(v, "base", 0))}
+		CloseAny: atoi(v, "closeany", 0) == 1, ESlow: atoi(v, "eslow", 0) == 1, BoFunc: atoi(v, "bofunc", 0) == 1, AsyncOnly: atoi(v, "aclose", 0) == 1, Move: atoi(v, "move", 0) == 1, Append: atoi(v, "app", 0) >= 1, AppendPart: max(atoi(v, "app", 0)-1, 0) % 2, AppendMode: atoi(v, "app", 0), Base: int64(atoi(v, "base", 0))}
 	if p.Start == "" {
 		p.Start = "old"
 	}
@@ -432,6 +433,10 @@ func run(c *gx.Ctl, p *Params) *gx.Outcome {
 	// a zero back-off turns every failing redispatch into a loop that spins without ever blocking
 	// durably; with a non-zero one retries are driven by (fake) time
 	conf.Consumer.Retry.Backoff = 50 * time.Millisecond
+	if p.BoFunc {
+		conf.Consumer.Retry.Backoff = 0
+		conf.Consumer.Retry.BackoffFunc = func(retries int) time.Duration { return 50 * time.Millisecond }
+	}
 	conf.Consumer.MaxProcessingTime = 100 * time.Millisecond
 	conf.ChannelBufferSize = p.Buf
 	if p.FetchSz > 0 {
